@@ -187,6 +187,13 @@ SITES = {
         S('singletonSkip', '_f_value_counts == 1', {'_f_value_counts': 'c'}),
         S('displaced', '(el + _f_value_counts) % len(Y)', {'el': 'i', '_f_value_counts': 'c', 'len(Y)': 'n'}),
     ],
+    ('C03', IE, 'generate_data_for_ranking'): [
+        S('labelFirst', 'feature_one == args.label_column', {'feature_one': ('a', STR), 'args.label_column': ('label', STR)}),
+    ],
+    ('C03', IE, 'get_importances_estimate_pairwise'): [],
+    ('C03', CR, 'get_combinations_from_columns'): [],
+    ('C04', IE, 'generate_data_for_ranking'): [],
+    ('C04', IE, 'get_importances_estimate_pairwise'): [],
     ('C03', IE, 'numba_mi'): [
         S('correctionFlag', "heuristic == 'MI-numba-randomized'", {'heuristic': ('h', STR)}),
     ],
@@ -242,6 +249,39 @@ SITES = {
     ],
     ('C16', CR, 'estimate_importances_minibatches'): [
         S('validLine', 'len(parsed_line) == len(column_descriptions)', {'len(parsed_line)': 'w', 'len(column_descriptions)': 'hw'}),
+    ],
+    # ---- interactions and the composition of the constructors (C10, C11)
+    ('C10', CR, 'compute_combined_features'): [
+        S('featureColumn', 'x != args.label_column', {'x': ('c', STR), 'args.label_column': ('label', STR)}),
+        S('joinString', "' AND_REL ' if is_3mr else ' AND '", {'is_3mr': ('rel', 'Bool')}),
+        S('order', '2 if is_3mr else args.interaction_order', {'is_3mr': ('rel', 'Bool'), 'args.interaction_order': 'k'}),
+        S('enumerate', 'args.interaction_order > 1', {'args.interaction_order': 'k'}),
+        S('lengthPrefixed', "f'{len(value)}:{value}'", {'value': ('v', STR)}),
+    ],
+    ('C11', CR, 'compute_batch_ranking'): [
+        S('doTransform', "args.transformers != 'none'", {'args.transformers': ('t', STR)}),
+        S('doExplode', "args.explode_multivalue_features != 'False'", {'args.explode_multivalue_features': ('e', STR)}),
+        S('doSub', "args.subfeature_mapping != 'False'", {'args.subfeature_mapping': ('m', STR)}),
+        S('doInteractions', 'args.interaction_order > 1 or args.reference_model_JSON', {'args.interaction_order': 'k', 'args.reference_model_JSON': ('ref', STR)}),
+        S('doRelations', "'3mr' in args.heuristic", {'args.heuristic': ('h', STR)}),
+        S('doNoise', "args.include_noise_baseline_features == 'True' and args.heuristic != 'Constant'",
+          {'args.include_noise_baseline_features': ('n', STR), 'args.heuristic': ('h', STR)}),
+        S('doRare', "args.task == 'identify_rare_values'", {'args.task': ('task', STR)}),
+    ],
+    ('C16', 'outrank/core_utils.py', 'generic_line_parser'): [
+        S('isTsv', "args.data_source == 'ob-raw-dump'", {'args.data_source': ('src', STR)}),
+        S('isVw', "args.data_source == 'ob-vw'", {'args.data_source': ('src', STR)}),
+        S('isCsv', "args.data_source == 'ob-csv' or args.data_source == 'csv-raw'", {'args.data_source': ('src', STR)}),
+    ],
+    ('C16', 'outrank/core_utils.py', 'parse_namespace'): [
+        S('twoFieldLine', "len(namespace_parts) == 2 and '_' not in namespace_parts[0]", {'len(namespace_parts)': 'n', 'namespace_parts[0]': ('id', STR)}),
+        S('isFloat', "type_name == 'f32'", {'type_name': ('t', STR)}),
+    ],
+    ('C16', 'outrank/core_utils.py', 'parse_ob_line_vw'): [
+        S('keepToken', "x != ''", {'x': ('x', STR)}),
+    ],
+    ('C13', CR, 'compute_cardinalities'): [
+        S('countedInSketch', 'unique_value', {'unique_value': ('v', STR)}, nth=1, type='Bool'),
     ],
     # ---- transformers keep rule (C12)
     ('C12', TR, 'FeatureTransformerGeneric.__init__'): [
